@@ -264,6 +264,16 @@ def slow_echo(x, delay=0.1, size=0, marker=None):
                     _t.sleep(0.002)
             except BaseException:  # noqa
                 pass
+    if x == 'STUBBORN-SIGIGN':
+        # swallows every exception and ignores SIGTERM as well: only SIGKILL ends it
+        import signal as _sg
+        _sg.signal(_sg.SIGTERM, _sg.SIG_IGN)
+        while True:
+            try:
+                while True:
+                    _t.sleep(0.002)
+            except BaseException:  # noqa
+                pass
     if x == 'LINGER':
         # leaves a non-daemon thread behind: the process does not exit when the work is over
         import threading as _th
